@@ -80,7 +80,9 @@ func NewShutdownHandler(logger log.Logger, daemon daemon.Daemon, opts ...options
 		daemon:          daemon,
 		stopGracePeriod: 300 * time.Second,
 		gracefulStop:    make(chan os.Signal, 1),
-		appSelfShutdown: make(chan selfShutdownRequest),
+		// buffered like gracefulStop: a request that is made before the go routine of Run has reached its select
+		// (before Run, or right after Run returned) must not be lost.
+		appSelfShutdown: make(chan selfShutdownRequest, 1),
 		Events: &Events{
 			AppSelfShutdown: event.New2[string, bool](),
 			AppShutdown:     event.New(),
